@@ -319,11 +319,21 @@ fn run_dlv(c: &Case, with_intr: bool) -> Obs {
                 }
                 continue;
             }
-            return Obs::fail(
-                "-",
-                &format!("{fmt}-interrupted-changes-content"),
-                format!("delivery={} {}", d.name, first_diff(&plain, &t)),
-            );
+            // no Interrupted reached the caller, yet the content differs: is it the interruption or
+            // just the chunking of this delivery?  Re-run the same delivery without the interrupts.
+            let mut d2 = d.clone();
+            d2.intr_all = false;
+            d2.intr = Arc::new(Vec::new());
+            if let Some(sc) = &d.script {
+                d2.script = Some(Arc::new(sc.iter().copied().filter(|e| *e != Deliver::Interrupted).collect()));
+            }
+            if transcript(fmt, &data, Some(&d2)) == plain {
+                return Obs::fail(
+                    "-",
+                    &format!("{fmt}-interrupted-changes-content"),
+                    format!("delivery={} {}", d.name, first_diff(&plain, &t)),
+                );
+            }
         }
         let tag = match fmt {
             "fasta" | "fastaidx" => fasta_class(&data).map(|s| s.to_string()),
@@ -410,8 +420,16 @@ fn generate(rng: &mut Rng, tier: &str, w: &mut CaseWriter) {
     let effort = if thorough { 1 } else { 0 };
     // ---- L3: one valid file per format and variant, plus malformed ones
     let reps = if thorough { 6 } else { 2 };
-    let mut push = |w: &mut CaseWriter, rng: &mut Rng, fmt: &str, file: &[u8]| {
+    let push = |w: &mut CaseWriter, rng: &mut Rng, fmt: &str, file: &[u8]| {
         let seed = rng.next() >> 1;
+        // a corrupted length field can make a reader allocate and zero gigabytes before it notices the
+        // truncation (buf.resize(n) then read_exact); such a file is useless for thousands of
+        // deliveries, so files whose plain decode is slow are dropped here
+        let t0 = std::time::Instant::now();
+        let _ = transcript(fmt, &Arc::new(file.to_vec()), None);
+        if t0.elapsed() > std::time::Duration::from_millis(40) {
+            return;
+        }
         w.push("dlv", vec![fmt.into(), seed.to_string(), effort.to_string(), hex(file)]);
         w.push("dlvi", vec![fmt.into(), seed.to_string(), effort.to_string(), hex(file)]);
     };
